@@ -195,7 +195,7 @@ pub fn check_trace(trace: &[(Op, Dump)], st: &mut ProtoStats) -> Result<(), Stri
                 // the hand-over wakes the new owner with "completed"
                 ctx = Some(0);
             }
-            Op::ReleaseQuery { result, .. } | Op::ReleaseTransferredOwnedBy { result, .. } => {
+            Op::ReleaseQuery { result, .. } | Op::ReleaseTransferredOwnedBy { result, .. } | Op::ReleaseTransferredBegin { result, .. } => {
                 ctx = Some(*result);
             }
             _ => {}
